@@ -2,7 +2,8 @@
    Statements only; proofs in Constraints/ModelProofs.v.  well_formed = the non-null values of a
    column share one coarse type (number / string / date), which every pandas column does. *)
 From Coq Require Import ZArith List Bool.
-From Tdda Require Import Base.Sexp Base.Str Generated.Consts Constraints.Model Constraints.ModelProofs Constraints.AllowedProofs.
+From Tdda Require Import Base.Sexp Base.Str Generated.Consts Constraints.Model Constraints.ModelProofs Constraints.AllowedProofs
+  Constraints.Detect Constraints.ClosureDetect.
 Import ListNotations.
 Open Scope Z_scope.
 
@@ -119,3 +120,16 @@ Example C02_example :
   verify {| p_strict := false |} (Some c)
          (CMin (Some {| b_value := VNum (-2); b_fuzzed := VNum (-3); b_prec := PClosed |})) = false.
 Proof. vm_compute. split; reflexivity. Qed.
+
+(* the overall failure total is 0 exactly when every verdict of every field - present or missing - is a pass;
+   hence one failed constraint anywhere gives a positive overall total (no cancellation between fields) *)
+Theorem C02_dataset_failures_zero_iff : forall p (fs : list (option column * list constr)),
+  v_failures (verify_dataset p fs) = 0 <->
+  forall f k, In f fs -> In k (snd f) -> verify p (fst f) k = true.
+Proof. exact dataset_failures_zero_iff_proof. Qed.
+Print Assumptions C02_dataset_failures_zero_iff.
+
+Theorem C02_one_failure_is_counted : forall p (fs : list (option column * list constr)) f k,
+  In f fs -> In k (snd f) -> verify p (fst f) k = false -> 0 < v_failures (verify_dataset p fs).
+Proof. exact one_failure_is_counted_proof. Qed.
+Print Assumptions C02_one_failure_is_counted.
